@@ -1552,6 +1552,7 @@ class Tokenizer:
         split = self.regex.split(text)
         self._text = [segment for segment in split if segment]
         self._head = self._global = self._depth = 0
+        self._stacks = []
         self._bad_routes = set()
         self._skip_style_tags = skip_style_tags
 
